@@ -281,3 +281,11 @@ func ValidPatches(t *rapid.T, max int, o PatchOpts) []interface{} {
 	}
 	return out
 }
+
+// AwkwardNames are document member names that are legal JSON strings, need no JSON-pointer escaping (no '~', no '/')
+// and are yet easy to mishandle when a name is pasted into JSON text or compared by prefix.
+var AwkwardNames = []string{"a b", "a\"b", "a\\b", "a\\tb", "a\\u0041b", "line\nfeed", "tab\there", "\u00e9t\u00e9", "\U0001f600", "%s", "%d%%", "", "0", "-", "copy-intermediate",
+	"serviceProvider", "services", "service2", "publicKeyHistory", "publicKeys", "Service", "x\",\"path\":\"\\u002fservice\",\"z\":\"", "{}", "[0]", "null"}
+
+// PointerNames need JSON-pointer escaping (RFC 6901) when they become a pointer token.
+var PointerNames = []string{"a/b", "https://schema.org/name", "a~b", "a~1b", "~0", "/", "~", "m/service", "/service"}
